@@ -192,6 +192,57 @@ Fixpoint sched_pred (maxt : N) (outs : list (list N)) (progs : list (list top)) 
   | _, _ => false
   end.
 
+(* ---- E. when a response set gives its buffer back ---------------------------------------- *)
+
+(* respSet.Close runs in the request's goroutine while the response set's receive goroutine may
+   still be handling a message (MatchesZLabels writes into the matcher's buffer). The closer is
+   a program of actions; the receiver writes some number of times and then stops. Actions of
+   Close in source order (source fact closeStmts): cancel the stream, WAIT for the receive
+   goroutine (<-l.donec / l.wg.Wait()), shardMatcher.Close() = Put, CloseSend. *)
+Inductive cact := CCancel | CWait | CPut | CCloseSend.
+Inductive tev := TWrite | TStop | TAct (a : cact).      (* trace events *)
+
+Definition close_fixed : list cact := [CCancel; CWait; CPut; CCloseSend].
+Definition close_early_put : list cact := [CCancel; CPut; CCloseSend; CWait].
+
+(* interleave by a schedule: true = the closer moves, false = the receiver moves. The closer's
+   CWait is enabled only when the receiver has stopped; a thread that cannot move passes. *)
+Fixpoint trun_close (fuel : nat) (sched : nat -> bool) (step : nat) (closer : list cact) (writes : nat) (stopped : bool) : list tev :=
+  match fuel with
+  | O => []
+  | S f =>
+    let recv_move :=
+      if stopped then None
+      else match writes with
+           | O => Some (TStop, O, true)
+           | S w => Some (TWrite, w, false)
+           end in
+    let close_move :=
+      match closer with
+      | [] => None
+      | CWait :: r => if stopped then Some (TAct CWait, r) else None
+      | a :: r => Some (TAct a, r)
+      end in
+    match (if sched step then close_move else None), recv_move with
+    | Some (e, r), _ => e :: trun_close f sched (S step) r writes stopped
+    | None, Some (e, w, st) => e :: trun_close f sched (S step) closer w st
+    | None, None =>
+      match close_move with
+      | Some (e, r) => e :: trun_close f sched (S step) r writes stopped
+      | None => []
+      end
+    end
+  end.
+
+(* the buffer is written after it went back to the pool *)
+Fixpoint write_after_put (seen_put : bool) (t : list tev) : bool :=
+  match t with
+  | [] => false
+  | TAct CPut :: r => write_after_put true r
+  | TWrite :: r => seen_put || write_after_put seen_put r
+  | _ :: r => write_after_put seen_put r
+  end.
+
 (* ---- cases ------------------------------------------------------------------------- *)
 
 Inductive case :=
@@ -210,7 +261,12 @@ Inductive case :=
 (* the same threads released together through a barrier on a fresh pool, many times: did the
    capacities checked out at one moment (or UsedBytes) ever exceed maxTotal; UsedBytes after
    every thread returned what it held, maximum over the repetitions *)
-| CStress (sizes : list N) (maxt : N) (threads : list (list top)) (exceeded : bool) (final_used : N).
+| CStress (sizes : list N) (maxt : N) (threads : list (list top)) (exceeded : bool) (final_used : N)
+(* a sharded request through the real ProxyStore, torn down early while the store's stream has
+   a message in flight; at the moment the stream sees CloseSend "the next request" takes a buffer
+   out of the proxy's pool: was CloseSend seen before the receive goroutine ended, and did
+   anything write into the taken buffer *)
+| CTeardown (lazy : bool) (immediate : nat) (closed_early written : bool).
 
 Definition pobs_eqb (a b : pobs) : bool :=
   Bool.eqb (fst (fst a)) (fst (fst b)) && (snd (fst a) =? snd (fst b)) && (snd a =? snd b).
@@ -330,6 +386,9 @@ Definition corr_ok (c : case) : bool :=
   | CStress _ maxt _ exceeded fin =>
     (* every interleaving of atomic steps keeps the budget (theorem C17_concurrent_budget) *)
     ((maxt =? 0) || negb exceeded) && (fin =? 0)
+  | CTeardown _ _ early written =>
+    (* Close waits for the receive goroutine before Put and CloseSend (theorem C17_put_after_receiver) *)
+    negb early && negb written
   | CProxy reqs k nfail sharded dup =>
     match pxrun true pxinit (px_requests reqs k nfail sharded 0 0) with
     | Some st => Bool.eqb dup (negb (nodup_n (mpool (px_m st))))
@@ -372,4 +431,5 @@ Definition pred_ok (c : case) : bool :=
   | CProxy _ _ _ _ dup => negb dup
   | CSched _ maxt threads sched obs => sched_pred maxt (map (fun _ => []) threads) threads sched obs
   | CStress _ maxt _ exceeded fin => ((maxt =? 0) || negb exceeded) && (fin =? 0)
+  | CTeardown _ _ _ written => negb written
   end.
